@@ -1,6 +1,7 @@
 package main
 
 import (
+	"crypto/x509"
 	"fmt"
 	"io"
 	"net"
@@ -23,8 +24,8 @@ type lifeRun struct {
 	h        *lifeHandler
 	max      int
 	timeout  time.Duration
-	arrivals map[yieldKey]bool          // yield points reached and not yet released
-	release  map[yieldKey]chan struct{} // per blocked goroutine
+	arrivals map[yieldKey]bool            // yield points reached and not yet released
+	release  map[yieldKey][]chan struct{} // blocked goroutines per yield point (a list: a reused source port gives two connections the same key)
 	cond     *sync.Cond
 	conns    map[int]net.Conn // model connection id -> client side of the connection
 	addrOf   map[int]string
@@ -61,7 +62,7 @@ func (h *lifeHandler) HandleInputRegisters(r *modbus.InputRegistersRequest) ([]u
 }
 
 func newLifeRun(max int, timeout time.Duration) (*lifeRun, error) {
-	lr := &lifeRun{max: max, timeout: timeout, arrivals: map[yieldKey]bool{}, release: map[yieldKey]chan struct{}{},
+	lr := &lifeRun{max: max, timeout: timeout, arrivals: map[yieldKey]bool{}, release: map[yieldKey][]chan struct{}{},
 		conns: map[int]net.Conn{}, addrOf: map[int]string{}, lastReq: map[int]time.Time{}}
 	lr.cond = sync.NewCond(&lr.mu)
 	lr.h = &lifeHandler{served: map[string]int{}}
@@ -84,7 +85,7 @@ func (lr *lifeRun) yield(point string, sock net.Conn) {
 	k := yieldKey{point, sock.RemoteAddr().String()}
 	ch := make(chan struct{})
 	lr.arrivals[k] = true
-	lr.release[k] = ch
+	lr.release[k] = append(lr.release[k], ch)
 	lr.cond.Broadcast()
 	lr.mu.Unlock()
 	<-ch
@@ -116,9 +117,18 @@ func (lr *lifeRun) reached(point string, id int) bool {
 func (lr *lifeRun) letGo(point string, id int) bool {
 	k := yieldKey{point, lr.addrOf[id]}
 	lr.mu.Lock()
-	ch, ok := lr.release[k]
-	delete(lr.release, k)
-	delete(lr.arrivals, k)
+	chs := lr.release[k]
+	ok := len(chs) > 0
+	var ch chan struct{}
+	if ok {
+		ch = chs[0]
+		if len(chs) == 1 {
+			delete(lr.release, k)
+			delete(lr.arrivals, k)
+		} else {
+			lr.release[k] = chs[1:]
+		}
+	}
 	lr.mu.Unlock()
 	if ok {
 		close(ch)
@@ -129,8 +139,10 @@ func (lr *lifeRun) letGo(point string, id int) bool {
 func (lr *lifeRun) finishAll() {
 	lr.mu.Lock()
 	lr.passthru = true
-	for k, ch := range lr.release {
-		close(ch)
+	for k, chs := range lr.release {
+		for _, ch := range chs {
+			close(ch)
+		}
 		delete(lr.release, k)
 	}
 	lr.mu.Unlock()
@@ -170,6 +182,19 @@ func (lr *lifeRun) peerSeesClosed(id int, d time.Duration) bool {
 		return false
 	}
 	return true
+}
+
+// serverGoroutineStacks: the stacks of the goroutines counted by serverGoroutines (diagnosis)
+func serverGoroutineStacks() string {
+	buf := make([]byte, 1<<20)
+	n := runtime.Stack(buf, true)
+	var out []string
+	for _, g := range strings.Split(string(buf[:n]), "\n\n") {
+		if strings.Contains(g, "modbus.(*ModbusServer).acceptTCPClients") || strings.Contains(g, "modbus.(*ModbusServer).handleTCPClient") {
+			out = append(out, g)
+		}
+	}
+	return strings.Join(out, " || ")
 }
 
 func serverGoroutines() int {
@@ -274,6 +299,7 @@ func (o *lifeOutcome) fail(kind, check, impl, expect, note string) {
 func runLifeSchedule(mp *ModelProc, r *Rng, max int, nsteps int, fixed []string) *lifeOutcome {
 	o := &lifeOutcome{}
 	timeout := 250 * time.Millisecond
+	baseG := serverGoroutines() // goroutines that an earlier schedule left behind are reported once, there
 	lr, err := newLifeRun(max, timeout)
 	if err != nil {
 		o.fail("property", "life-setup", err.Error(), "server created", "")
@@ -285,17 +311,20 @@ func runLifeSchedule(mp *ModelProc, r *Rng, max int, nsteps int, fixed []string)
 		for _, c := range lr.conns {
 			c.Close()
 		}
-		// every server goroutine must end once Stop returned and sockets are closed
+		// every server goroutine must end once Stop returned and sockets are closed. "Eventually":
+		// 3 s (sessions end by themselves after the 250 ms idle timeout; the bound only has to
+		// separate "still winding down on a loaded machine" from "never ends")
 		ok := false
-		for i := 0; i < 400; i++ {
-			if serverGoroutines() == 0 {
+		limit := time.Now().Add(3 * time.Second)
+		for time.Now().Before(limit) {
+			if serverGoroutines() <= baseG {
 				ok = true
 				break
 			}
-			time.Sleep(time.Millisecond)
+			time.Sleep(2 * time.Millisecond)
 		}
 		if !ok {
-			o.fail("property", "goroutine-leak", fmt.Sprintf("%d server goroutines alive 400ms after Stop", serverGoroutines()), "0", "a server goroutine outlives Stop")
+			o.fail("property", "goroutine-leak", fmt.Sprintf("%d server goroutines alive 3 s after Stop", serverGoroutines()-baseG), "0", "a server goroutine outlives Stop: "+shorten(serverGoroutineStacks(), 1500))
 		}
 		modbus.VerifSetScheduler(nil)
 	}()
@@ -687,6 +716,9 @@ func lifeCheck(prop string) checkFn {
 		if prop == "C10" {
 			rapidRestart(tier, res)
 		}
+		if prop == "C09" {
+			slotProbes(tier, res)
+		}
 		if prop == "C10" || prop == "C09" {
 			collectRaceReports(res, "race")
 		}
@@ -770,4 +802,142 @@ func classKey(cs []string) string {
 func init() {
 	checks["C09"] = lifeCheck("C09")
 	checks["C10"] = lifeCheck("C10")
+}
+
+// slotProbes (C09), without the scheduler:
+//
+//	(a) tcp+tls server, MaxClients 2: peers whose handshake fails (plain text, hang-up) must not
+//	    keep their slots — afterwards the pool is empty and a correctly authenticated client is served;
+//	(b) bursts of connections dialled back to back: every one is served on its own socket, and
+//	    after they close the pool is empty and MaxClients new connections are served.
+func slotProbes(tier string, res *Result) {
+	modbus.VerifSetScheduler(nil)
+	waitPool := func(srv *modbus.ModbusServer, want int, d time.Duration) int {
+		limit := time.Now().Add(d)
+		for {
+			_, n := srv.VerifSnapshot()
+			if n == want || time.Now().After(limit) {
+				return n
+			}
+			time.Sleep(2 * time.Millisecond)
+		}
+	}
+	// (a)
+	func() {
+		ca, err := mint(certSpec{cn: "ca", isCA: true})
+		if err != nil {
+			res.Note("slot probe: " + err.Error())
+			return
+		}
+		srvCert, _ := mint(certSpec{cn: "server", parent: ca, ips: []net.IP{net.IPv4(127, 0, 0, 1)}, extKeyUse: []x509.ExtKeyUsage{x509.ExtKeyUsageServerAuth}})
+		cliCert, _ := mint(certSpec{cn: "client", parent: ca, extKeyUse: []x509.ExtKeyUsage{x509.ExtKeyUsageClientAuth}})
+		h := &memHandler{}
+		srv, err := modbus.NewServer(&modbus.ServerConfiguration{URL: "tcp+tls://127.0.0.1:0", Timeout: 2 * time.Second, MaxClients: 2, Logger: quietLog,
+			TLSServerCert: srvCert.tlsCert(), TLSClientCAs: poolOf(ca)}, h)
+		if err != nil || srv.Start() != nil {
+			res.Note("slot probe: tls server did not start")
+			return
+		}
+		defer srv.Stop()
+		addr := srv.VerifListenAddr().String()
+		line := "tcp+tls server, MaxClients 2: a plain-text peer and a peer that hangs up during the handshake, then a valid client"
+		for round := 0; round < 3; round++ {
+			if c, err := net.Dial("tcp", addr); err == nil {
+				c.Write([]byte{0, 1, 0, 0, 0, 6, 1, 3, 0, 0, 0, 1}) // modbus/tcp in the clear
+				time.Sleep(20 * time.Millisecond)
+				c.Close()
+			}
+			if c, err := net.Dial("tcp", addr); err == nil {
+				c.Write([]byte{0x16, 0x03, 0x01}) // the beginning of a ClientHello, then hang up
+				c.Close()
+			}
+		}
+		if n := waitPool(srv, 0, 3*time.Second); n != 0 {
+			res.Add(Finding{Kind: "property", Check: "slot-after-failed-handshake", Line: line, Impl: fmt.Sprintf("%d connections still registered 3 s after the peers left", n), Expect: "0",
+				Note: "a connection whose TLS handshake failed keeps its slot"})
+		}
+		mc, err := modbus.NewClient(&modbus.ClientConfiguration{URL: "tcp+tls://" + addr, Timeout: time.Second, Logger: quietLog, TLSClientCert: cliCert.tlsCert(), TLSRootCAs: poolOf(ca)})
+		if err == nil {
+			if oerr := mc.Open(); oerr != nil {
+				res.Add(Finding{Kind: "property", Check: "slot-after-failed-handshake", Line: line, Impl: "valid client: Open: " + oerr.Error(), Expect: "served"})
+			} else {
+				if _, rerr := mc.ReadRegister(1, modbus.HOLDING_REGISTER); rerr != nil {
+					res.Add(Finding{Kind: "property", Check: "slot-after-failed-handshake", Line: line, Impl: "valid client: " + rerr.Error(), Expect: "served"})
+				}
+				mc.Close()
+			}
+		}
+		res.Eval("slot-probe/tls-handshake-failure", true, line)
+	}()
+	// (b)
+	func() {
+		h := &memHandler{}
+		const max = 4
+		srv, err := modbus.NewServer(&modbus.ServerConfiguration{URL: "tcp://127.0.0.1:0", Timeout: 2 * time.Second, MaxClients: max, Logger: quietLog}, h)
+		if err != nil || srv.Start() != nil {
+			res.Note("slot probe: tcp server did not start")
+			return
+		}
+		defer srv.Stop()
+		addr := srv.VerifListenAddr().String()
+		rounds := scale(tier, 12, 100)
+		for round := 0; round < rounds; round++ {
+			line := fmt.Sprintf("tcp server, MaxClients %d: %d connections dialled back to back (round %d), one request each", max, max, round)
+			var conns []net.Conn
+			// every second round: the accept loop is held at its first connection until the whole
+			// burst is queued, and runs on a single P afterwards, so that it takes all queued
+			// connections before any session goroutine it spawned gets to run
+			gate := make(chan struct{})
+			var once sync.Once
+			pinned := round%2 == 1
+			if pinned {
+				modbus.VerifSetScheduler(func(point string, sock net.Conn) {
+					if point == "accepted" {
+						first := false
+						once.Do(func() { first = true })
+						if first {
+							<-gate
+						}
+					}
+				})
+			}
+			for i := 0; i < max; i++ {
+				c, err := net.Dial("tcp", addr)
+				if err != nil {
+					break
+				}
+				conns = append(conns, c)
+			}
+			if pinned {
+				time.Sleep(5 * time.Millisecond) // let the kernel queue them
+				prev := runtime.GOMAXPROCS(1)
+				close(gate)
+				time.Sleep(20 * time.Millisecond)
+				runtime.GOMAXPROCS(prev)
+				modbus.VerifSetScheduler(nil)
+			}
+			unanswered := 0
+			for i, c := range conns {
+				c.Write(mbapFrame(uint16(0x100+i), 0, 1, 3, append(be16b(i), be16b(1)...)))
+			}
+			for i, c := range conns {
+				c.SetReadDeadline(time.Now().Add(time.Second))
+				buf := make([]byte, 32)
+				n, _ := io.ReadAtLeast(c, buf, 9)
+				if n < 9 || buf[0] != 0x01 || buf[1] != byte(i) {
+					unanswered++
+				}
+			}
+			for _, c := range conns {
+				c.Close()
+			}
+			left := waitPool(srv, 0, 3*time.Second)
+			if unanswered > 0 || left != 0 {
+				res.Add(Finding{Kind: "property", Check: "burst-slots", Line: line, Impl: fmt.Sprintf("%d of %d connections got no reply of their own; %d still registered after all closed", unanswered, len(conns), left),
+					Expect: "every admitted connection is served on its own socket; pool empty afterwards", Note: "a connection admitted in a burst was not served, or its slot was not released"})
+				break
+			}
+		}
+		res.Eval("slot-probe/burst", true, fmt.Sprintf("%d bursts of %d connections", rounds, max))
+	}()
 }
